@@ -90,18 +90,18 @@ theorem applyUnitary_gate (t : Tab) (hv : t.Valid) (g : Gate) (hg : g.WF t.n) :
 
 /-! ### 2×2 constants of functions.py and their `n`-qubit embeddings -/
 
-/-- `|s⟩⟨s'|` : `projector_ketz0()` = `ketbra 0 0`, `projector_ketz1()` = `ketbra 1 1`, the reset Kraus block
-    `[[0,1],[0,0]]` = `ketbra 0 1` -/
-noncomputable def ketbra (s s' : Bool) : Matrix Bool Bool ℂ := Matrix.of fun a b => if a = s ∧ b = s' then 1 else 0
+/-- `|s⟩⟨s'|` : `projector_ketz0()` = `ketBra2 0 0`, `projector_ketz1()` = `ketBra2 1 1`, the reset Kraus block
+    `[[0,1],[0,0]]` = `ketBra2 0 1` -/
+noncomputable def ketBra2 (s s' : Bool) : Matrix Bool Bool ℂ := Matrix.of fun a b => if a = s ∧ b = s' then 1 else 0
 
 /-- `hadamard()` -/
 noncomputable def hadamardM : Matrix Bool Bool ℂ := invSqrt2 • hadM
 
 /-- `projectors_zbasis(n, q)[s]` : the Kronecker chain with `|s⟩⟨s|` at position `q` and identities elsewhere -/
-noncomputable def projZ (n q : Nat) (s : Bool) : DMat n := oneQ n q (ketbra s s)
+noncomputable def projZ (n q : Nat) (s : Bool) : DMat n := oneQ n q (ketBra2 s s)
 
 /-- `get_reset_qubit_kraus(n, q)` -/
-noncomputable def resetKraus (n q : Nat) : List (DMat n) := [oneQ n q (ketbra false false), oneQ n q (ketbra false true)]
+noncomputable def resetKraus (n q : Nat) : List (DMat n) := [oneQ n q (ketBra2 false false), oneQ n q (ketBra2 false true)]
 
 /-- the Kronecker chain with the 2×2 blocks `u` at position `c` and `v` at position `t`, identities elsewhere
     (entrywise: all other bits agree, then the product of the two block entries) -/
@@ -170,26 +170,26 @@ theorem projZ_eq (n q : Nat) (hq : q < n) (s : Bool) : projZ n q s = proj n (Zq 
   by_cases h : a = b
   · subst h
     rw [if_pos (fun _ _ => rfl), if_pos rfl]
-    by_cases h2 : bx a q = s <;> simp [ketbra, h2]
+    by_cases h2 : bx a q = s <;> simp [ketBra2, h2]
   · rw [if_neg h]
     have := (not_congr (bits_eq_iff_site q a b)).mp h
     by_cases h1 : ∀ j : Fin n, j.val ≠ q → a j = b j
     · rw [if_pos h1]
       have h2 : bx a q ≠ bx b q := fun h2 => this ⟨h1, h2⟩
-      simp only [ketbra, Matrix.of_apply]
+      simp only [ketBra2, Matrix.of_apply]
       rw [if_neg]
       rintro ⟨e1, e2⟩
       exact h2 (e1.trans e2.symm)
     · rw [if_neg h1]
 
-theorem ketbra_ft : ketbra false true = ketbra false false * sigmaX := by
+theorem ketBra2_ft : ketBra2 false true = ketBra2 false false * sigmaX := by
   ext a b
-  cases a <;> cases b <;> simp [ketbra, sigmaX, Matrix.mul_apply, Fintype.sum_bool]
+  cases a <;> cases b <;> simp [ketBra2, sigmaX, Matrix.mul_apply, Fintype.sum_bool]
 
 /-- the second reset Kraus operator is `Π_0 X_q` -/
 theorem resetKraus1_eq (n q : Nat) (hq : q < n) :
-    oneQ n q (ketbra false true) = proj n (Zq q false) * pauliMat n (Xq q) := by
-  rw [ketbra_ft, ← oneQ_mul n q hq, ← projZ_eq n q hq, oneQ_sigmaX n q hq]
+    oneQ n q (ketBra2 false true) = proj n (Zq q false) * pauliMat n (Xq q) := by
+  rw [ketBra2_ft, ← oneQ_mul n q hq, ← projZ_eq n q hq, oneQ_sigmaX n q hq]
   rfl
 
 theorem ctrlG_eq (n c t : Nat) (hc : c < n) (ht : t < n) (hct : c ≠ t) (u : Matrix Bool Bool ℂ) :
@@ -567,9 +567,9 @@ theorem measure_fixes (s : RunState) (hv : s.t.Valid) (hr : s.t.StabReal) (d : D
 theorem resetChannel_det (t : Tab) (hv : t.Valid) (hr : t.StabReal) (q : Nat) (hq : q < t.n) (hp : t.pivot q = none)
     (o : Bool) : applyChannel (tabRho t.n t) (resetKraus t.n q) = tabRho t.n (t.resetZ q false o) := by
   obtain ⟨hf1, hf2, hz1, hz2⟩ := det_fix t hv hr q hq hp
-  have hK0 : oneQ t.n q (ketbra false false) = proj t.n (Zq q false) := projZ_eq t.n q hq false
+  have hK0 : oneQ t.n q (ketBra2 false false) = proj t.n (Zq q false) := projZ_eq t.n q hq false
   have hX : (pauliMat t.n (Xq q))ᴴ = pauliMat t.n (Xq q) := pauliMat_hermitian t.n _ rfl
-  have hsum : [oneQ t.n q (ketbra false false), oneQ t.n q (ketbra false true)].foldl
+  have hsum : [oneQ t.n q (ketBra2 false false), oneQ t.n q (ketBra2 false true)].foldl
       (fun acc K => acc + K * tabRho t.n t * Kᴴ) 0
       = proj t.n (Zq q false) * tabRho t.n t * proj t.n (Zq q false)
         + pauliMat t.n (Xq q) * (proj t.n (Zq q true) * tabRho t.n t * proj t.n (Zq q true)) * pauliMat t.n (Xq q) := by
